@@ -24,6 +24,11 @@ CHECKS = {
         text="Lean theorems over a model of the request-ID options/selection/truncation, the trace middleware, the traced client and chains of calls, and ResponseCapture: non-empty ID, trusted value truncated to the byte limit, fresh otherwise; an inbound trace ID is kept regardless of sampling and discards; by induction over chain depth every hop shares the trace ID and has the previous hop's span as parent; sampling 0/100 exact for every RNG (over fixedSampler.Sample regenerated from /repo); capture_exact: captured status/length equal what the underlying writer sent for every WriteHeader/Write sequence. Tie: the real HTTP middleware and both gRPC interceptors (unary, stream), real WrapDoer/UnaryClientTrace/StreamClientTrace in chains, real ResponseCapture over a recorder, all compared line by line with the compiled model.",
         note="Trusted: Lean kernel; hand-written model validated by correspondence; gotolean for the sampler; adaptive sampler arithmetic (floats, clock) and 1xx informational codes not modelled; crypto/rand IDs canonicalised as FRESH.",
         ref="DESIGN.md §3 C19"),
+    "C17": dict(
+        category="proof",
+        text="Lean theorems: the ip/ipv4/ipv6 relations hold for every behaviour of the library parsers; the dispatch covers exactly the 14 named formats and rejects every other name (table regenerated from /repo); exact characterisation of goa's hostname regex as written and a kernel-checked witness that it is not the host name format (known finding); spec dotted quads match goa's IPv4 regex; the pattern cache as an interleaving transition system: under every schedule of the atomic steps the cache maps a pattern only to its own compiled form and every verdict is match(compile p) v of the call's own arguments (history- and schedule-independence), with the lock/key discipline the model assumes decided over facts extracted from the real ValidatePattern. Tie: real ValidateFormat verdicts vs Lean specification recognisers (date, ipv4, uuid, mac, cidr, hostname) and vs validity-by-construction for the other formats; ValidatePattern vs regexp.MatchString over long sequential histories and under the race detector.",
+        note="Partial on schedules: the Go memory model is not modelled (race detector explores, theorem covers interleavings of modelled atomic steps). Library parsers are exercised, not proved; spec recognisers are hand-written specifications.",
+        ref="DESIGN.md §3 C17"),
 }
 
 m = {
